@@ -82,7 +82,7 @@ def tag9 : Tag := [57]
 def stepField (tbl : Tbl) (ckExpected : Nat) (s : DState) (tag value : Bytes) : Except Kind DState := do
   let s :=
     if tag == tag10 then
-      { s with ckPassed := (match pyInt value with | some v => v == (ckExpected : Int) | none => false) }
+      { s with ckPassed := (ckParse value == some ckExpected) }
     else if tag == tag35 then { s with mtype := value }
     else s
   match tbl.members? tag with
